@@ -56,10 +56,6 @@ theorem copyTail_spec (m : Nat) (buf : List UInt8) (off : Int64) (q : Nat) (hoff
     congr 1
     rw [List.take_of_length_le (by simp), List.take_of_length_le (by simp; omega)]
 
-theorem drop_cons4' (B : List Nat) (p : Nat) (h : p + 4 ≤ B.length) :
-    B.drop p = B.getD p 0 :: B.getD (p + 1) 0 :: B.getD (p + 2) 0 :: B.getD (p + 3) 0 :: B.drop (p + 4) :=
-  LeafTieC14CookiesDec.drop_cons4 B p h
-
 theorem k1028 : (1028 : UInt16).toNat = extAuthenticator := rfl
 theorem k260 : (260 : UInt16).toNat = extUniqueIdentifier := rfl
 theorem k516 : (516 : UInt16).toNat = extCookie := rfl
@@ -79,7 +75,7 @@ theorem C10_leaf_Authenticator_unpack (a : S_Authenticator) (buf : List UInt8) (
   unfold nts_Authenticator_unpack
   simp only [ht, bne_self_eq_false, Bool.false_eq_true, if_false]
   by_cases h4 : p + 4 ≤ buf.length
-  · rw [drop_cons4' _ p (by omega)]
+  · rw [LeafTieC14CookiesDec.drop_cons4 _ p (by omega)]
     simp only [unpackAuth, u16]
     obtain ⟨nl, hnl, hnln⟩ := beU16At_spec buf p (Int64.ofNat p) hpos (by omega)
     have hp2 : (Int64.ofNat p + 2).toInt = ((p + 2 : Nat) : Int) := by
